@@ -331,7 +331,7 @@ def run_validate(trace_path, props, workdir, module='OVMTrace.tla', timeout=3600
         return dict(bads=bads, drifts=drifts, done=done, wall=time.time() - t0, truncated=True)
     if r.returncode != 0 or done is None:
         raise MachineryError('validator failed (exit %d) on %s:\n%s' % (r.returncode, trace_path, r.stdout[-3000:]))
-    if done['bad'] != len(bads) or done['drift'] != len(drifts):
+    if done['bad'] != len(bads) or len(drifts) > done['drift']:   # (only the first few drift lines are printed)
         # TLC wraps long tuples over several lines: never lose a verdict to the line parser
         raise MachineryError('validator output parsed incompletely on %s: %d/%d bad, %d/%d drift' %
                              (trace_path, len(bads), done['bad'], len(drifts), done['drift']))
